@@ -7,5 +7,5 @@ cd /verif
 if ! git -C /repo apply --check /verif/seeded/$ID/patch.diff; then echo "PATCH DOES NOT APPLY"; exit 2; fi
 git -C /repo apply /verif/seeded/$ID/patch.diff
 ./check $PROP > /tmp/try_$ID.txt 2>&1; rc=$?
-git -C /repo checkout -- .; git -C /verif checkout -- lean/Usid/Generated
+git -C /repo checkout -- .; git -C /verif checkout -- lean/Usid/Generated evidence
 echo "check exit=$rc"; grep -v "^WARNING" /tmp/try_$ID.txt | grep "VIOLATION\|tier=" | cut -c1-400 | head -5
